@@ -58,7 +58,8 @@ def splitFibers (toks : List String) : List (List String) :=
 def parseCfg (s : String) : Option Cfg :=
   if s = "gen" then some currentCfg
   else match s.toList.map (· == '1') with
-    | [a, b, c, d, e] => some ⟨a, b, c, d, e⟩
+    | [a, b, c, d, e, r] => some ⟨a, b, c, d, e, r⟩
+    | [a, b, c, d, e] => some ⟨a, b, c, d, e, false⟩
     | _ => none
 
 def showQ (rc : Nat) (popped : Int) (q : RingQ Nat) : String :=
